@@ -261,3 +261,43 @@ def uint_arith(sample_set_sizes, flattened):
 def uint_arith_converted(sample_set_sizes, flattened):
     n = np.array(sample_set_sizes, dtype=np.float64)
     return 2 * (n**2 + n + 3) / (9 * n * (n - 1))
+
+
+def stale_buffer(variants, missing):
+    table = np.full(0, missing)
+    out = []
+    for var in variants:
+        if len(table) != len(var.alleles):
+            table = np.full(len(var.alleles), missing)
+        for i, allele in enumerate(var.alleles):
+            if allele is not None:
+                table[i] = ord(allele)
+        out.append(table[var.genotypes])
+    return out
+
+
+def fresh_buffer(variants, missing):
+    out = []
+    for var in variants:
+        table = np.full(len(var.alleles), missing)
+        for i, allele in enumerate(var.alleles):
+            if allele is not None:
+                table[i] = ord(allele)
+        out.append(table[var.genotypes])
+    return out
+
+
+def assert_same(self, other, ignore_provenance=False):
+    if self.equals(other, ignore_provenance=ignore_provenance):
+        return
+    if not ignore_provenance:
+        self.provenances.assert_equals(other.provenances)
+        raise AssertionError("differ in an undetected way")
+
+
+def assert_same_raises(self, other, ignore_provenance=False):
+    if self.equals(other, ignore_provenance=ignore_provenance):
+        return
+    if not ignore_provenance:
+        self.provenances.assert_equals(other.provenances)
+    raise AssertionError("differ in an undetected way")
